@@ -1,6 +1,7 @@
 package main
 
 import (
+	"bytes"
 	"encoding/base64"
 	"encoding/hex"
 	"math"
@@ -36,49 +37,115 @@ func vobs(err error, w, h int, fps float64, fixed bool) Val {
 	return L(I(1), I(int64(w)), I(int64(h)), f64bits(fps), Bo(fixed))
 }
 
-func h264Decode(data []byte) Val {
-	var sps h264.RawSPS
-	// Decode must not modify its input
-	in := append([]byte{}, data...)
-	err := sps.Decode(in)
-	return vobs(err, sps.Width(), sps.Height(), sps.FrameRate(), sps.IsFixedFrameRate())
+// ---- purity: every parser entry point gets the case's bytes inside one long-lived backing array
+// (consecutive cases reuse the same memory, as a stream reuses its packet buffers), followed by
+// 8 guard bytes within the slice's capacity.  Observed: first result, the whole backing array
+// after both calls, second result (the second call goes through the MetadataIsReady shortcut,
+// which parses the stream's stored parameter set).
+const guardN = 8
+
+var arena = make([]byte, 1<<20)
+
+func guarded(data []byte) []byte {
+	if len(data)+guardN > len(arena) {
+		arena = make([]byte, 2*(len(data)+guardN))
+	}
+	n := copy(arena, data)
+	for i := n; i < n+guardN; i++ {
+		arena[i] = 0xA5
+	}
+	return arena[:n : n+guardN]
 }
 
-func ascDecode(data []byte) Val {
-	var asc aac.AudioSpecificConfig
-	in := append([]byte{}, data...)
-	if err := asc.Decode(in); err != nil {
+func twice(data []byte, first, second func(buf []byte) Val) Val {
+	buf := guarded(data)
+	o1 := first(buf)
+	o2 := second(buf)
+	whole := append([]byte{}, buf[:cap(buf)]...)
+	return L(o1, B(whole), o2)
+}
+
+func videoMetaObs(ready bool, v *codec.VideoMeta) Val {
+	if !ready {
+		return L(I(0))
+	}
+	return L(I(1), I(int64(v.Width)), I(int64(v.Height)), f64bits(v.FrameRate), Bo(v.FixedFrameRate))
+}
+
+func h264Decode(data []byte) Val {
+	return twice(data,
+		func(buf []byte) Val {
+			var sps h264.RawSPS
+			err := sps.Decode(buf)
+			return vobs(err, sps.Width(), sps.Height(), sps.FrameRate(), sps.IsFixedFrameRate())
+		},
+		func(buf []byte) Val {
+			if len(buf) == 0 { // MetadataIsReady refuses an empty parameter set before parsing
+				return L(I(0))
+			}
+			vm := codec.VideoMeta{Sps: buf, Pps: dummyPps}
+			return videoMetaObs(h264.MetadataIsReady(&vm), &vm)
+		})
+}
+
+func ascObs(asc *aac.AudioSpecificConfig, err error) Val {
+	if err != nil {
 		return L(I(0))
 	}
 	rate := asc.SampleRate
 	if asc.ExtSampleRate > 0 {
 		rate = asc.ExtSampleRate
 	}
-	// the same through the stream-metadata shortcut
-	am := codec.AudioMeta{Sps: in}
-	if !aac.MetadataIsReady(&am) || am.SampleRate != rate || am.Channels != int(asc.Channels) {
-		return L(I(2), I(int64(am.SampleRate)), I(int64(am.Channels)))
-	}
 	return L(I(1), I(int64(rate)), I(int64(asc.Channels)))
 }
 
+func ascDecode(data []byte) Val {
+	return twice(data,
+		func(buf []byte) Val {
+			var asc aac.AudioSpecificConfig
+			err := asc.Decode(buf)
+			return ascObs(&asc, err)
+		},
+		func(buf []byte) Val {
+			if len(buf) == 0 { // MetadataIsReady refuses an empty config before parsing
+				var asc aac.AudioSpecificConfig
+				return ascObs(&asc, asc.Decode(buf))
+			}
+			am := codec.AudioMeta{Sps: buf}
+			if !aac.MetadataIsReady(&am) {
+				return L(I(0))
+			}
+			return L(I(1), I(int64(am.SampleRate)), I(int64(am.Channels)))
+		})
+}
+
 func h265Decode(data []byte) Val {
-	var sps hevc.H265RawSPS
-	in := append([]byte{}, data...)
-	err := sps.Decode(in)
-	if err != nil {
-		return L(I(0))
-	}
-	return vobs(nil, sps.Width(), sps.Height(), sps.FrameRate(), sps.IsFixedFrameRate())
+	return twice(data,
+		func(buf []byte) Val {
+			var sps hevc.H265RawSPS
+			if err := sps.Decode(buf); err != nil {
+				return L(I(0))
+			}
+			return vobs(nil, sps.Width(), sps.Height(), sps.FrameRate(), sps.IsFixedFrameRate())
+		},
+		func(buf []byte) Val {
+			if len(buf) == 0 {
+				return L(I(0))
+			}
+			vm := codec.VideoMeta{Vps: dummyVps265, Sps: buf, Pps: dummyPps265}
+			return videoMetaObs(hevc.MetadataIsReady(&vm), &vm)
+		})
 }
 
 func vpsDecode(data []byte) Val {
-	var vps hevc.H265RawVPS
-	in := append([]byte{}, data...)
-	if err := vps.Decode(in); err != nil {
-		return L(I(0))
+	one := func(buf []byte) Val {
+		var vps hevc.H265RawVPS
+		if err := vps.Decode(buf); err != nil {
+			return L(I(0))
+		}
+		return L(I(1), I(int64(vps.Vps_max_sub_layers_minus1)), U(uint64(vps.Vps_num_units_in_tick)), U(uint64(vps.Vps_time_scale)))
 	}
-	return L(I(1), I(int64(vps.Vps_max_sub_layers_minus1)), U(uint64(vps.Vps_num_units_in_tick)), U(uint64(vps.Vps_time_scale)))
+	return twice(data, one, one)
 }
 
 const sdpHead = "v=0\r\no=- 0 0 IN IP4 127.0.0.1\r\ns=c15\r\nc=IN IP4 0.0.0.0\r\nt=0 0\r\n"
@@ -114,9 +181,29 @@ func sdpVideo(kind int64, nal []byte) Val {
 	}
 	s := media.NewStream("/c15/glue", raw)
 	o1, o2 := videoObs(&v), videoObs(&s.Video)
+	stored := [][]byte{v.Sps, s.Video.Sps}
 	s.Close()
 	if o1.String() != o2.String() {
 		return L(I(4), o1, o2)
+	}
+	// the stored parameter sets are what every later consumer (muxers, late joiners) is given
+	for _, sp := range stored {
+		if !bytes.Equal(sp, nal) {
+			return L(I(7), B(sp))
+		}
+	}
+	if kind == 265 && (!bytes.Equal(v.Vps, dummyVps265) || !bytes.Equal(v.Pps, dummyPps265)) {
+		return L(I(7), B(v.Vps))
+	}
+	// parsing the stored set again (a second consumer) gives the same answer
+	v2 := codec.VideoMeta{Codec: v.Codec, Vps: v.Vps, Sps: v.Sps, Pps: v.Pps}
+	if kind == 264 {
+		h264.MetadataIsReady(&v2)
+	} else {
+		hevc.MetadataIsReady(&v2)
+	}
+	if o3 := videoObs(&v2); o3.String() != o1.String() {
+		return L(I(8), o1, o3)
 	}
 	return o1
 }
